@@ -61,11 +61,22 @@ def one_round(n, tag, probs):
 
 def worker(case):
     probs = []
-    ad, n = _hier.prepare(case)
+    variant = case[2] if len(case) > 2 else None
+    ad, n = _hier.prepare(case, policy="EDIF" if variant in ("edif-identifiers", "edif-identifiers-taken") else None)
     s = core.sdn()
     from spydrnet.uniquify import uniquify
 
-    variant = case[2] if len(case) > 2 else None
+    if variant in ("edif-identifiers", "edif-identifiers-taken"):
+        for l in n.libraries:
+            l["EDIF.identifier"] = "ID_" + l.name
+            for d in list(l.definitions):
+                d["EDIF.identifier"] = "ID_" + d.name
+                for el in list(d.ports) + list(d.cables) + list(d.children):
+                    el["EDIF.identifier"] = "ID_" + el.name
+                if variant == "edif-identifiers-taken" and not elab.is_leaf_def(d) and d is not n.top_instance.reference:
+                    # siblings whose *identifiers* equal, up to letter case, the ones uniquify derives
+                    for k in range(3):
+                        l.create_definition(name="other_%s_%d" % (d.name, k))["EDIF.identifier"] = ("ID_%s_sdn_unique_%d" % (d.name, k)).lower()
     if variant == "name-clash":
         # a sibling already carries the name the renaming counter will produce first
         lib = n.libraries[0]
@@ -126,6 +137,8 @@ def cases(tier):
             out.append((desc, "asc", "late-ports"))
         if desc[0] in ("K2-shared", "K7-shared-both") and (tier == "thorough" or sum(desc[1]) % 11 == 0):
             out.append((desc, "asc", "second-round"))
+            out.append((desc, "asc", "edif-identifiers"))
+            out.append((desc, "asc", "edif-identifiers-taken"))
     return out
 
 
